@@ -343,3 +343,14 @@ Qed.
 Example pf_arbitrary_model_bounds_satisfiable :
   ascending [1; 2; 3] /\ length [1; 2; 3] = length [0; 1; 0] /\ Forall (fun p => 0 <= p) [0; 1; 0].
 Proof. repeat split; repeat constructor; lra. Qed.
+
+(* the hypothesis of pf_norm_load_closed_form_partial is satisfiable (trivially for eps = 1: both sides lie in (0,1)) *)
+Example gaussian_overlap_identity_1 : gaussian_overlap_identity 1.
+Proof.
+  intros ls ss delta Hl Hs.
+  generalize (overlap_trunc_in_0_1 ls ss delta Hl Hs), (Phi_in_0_1 (- delta / sqrt (ls * ls + ss * ss))).
+  intros [A B] [C D]. apply Rabs_le. lra.
+Qed.
+
+Example monotone_hypotheses_satisfiable : exists sm ss L1 L2 ls, 0 < ss /\ 0 < ls /\ 0 < L1 /\ L1 < L2 /\ 0 < sm.
+Proof. exists 100, (1/20), 50, 70, (1/10). lra. Qed.
